@@ -143,6 +143,9 @@ type Vaxis struct {
 
 	mu     sync.Mutex
 	resize int32
+
+	// suspendMu lets one Suspend run at a time and guards suspended
+	suspendMu sync.Mutex
 }
 
 // New creates a new [Vaxis] instance. Calling New will query the underlying
@@ -1499,6 +1502,14 @@ func (vx *Vaxis) exitAltScreen() {
 // run another TUI. The state of vaxis will be retained, so you can reenter the
 // original state by calling Resume
 func (vx *Vaxis) Suspend() error {
+	// One Suspend at a time: Close calls Suspend too, and it may come from
+	// the signal handler or the panic recovery of the input goroutine
+	// while the application is inside its own Suspend, waiting for the
+	// terminal's reply. That call waits here until the terminal has been
+	// restored, instead of taking the Suspend under way for a finished one
+	vx.suspendMu.Lock()
+	defer vx.suspendMu.Unlock()
+
 	// HACK: The parser could be hanging for input. Because we have a handle
 	// on a real terminal, we can't "actually" close the FD, so the poll
 	// doesn't necessarily wake on the close call. However, we are the only
@@ -1646,7 +1657,9 @@ func (vx *Vaxis) Resume() error {
 	if err != nil {
 		return err
 	}
+	vx.suspendMu.Lock()
 	vx.suspended = false
+	vx.suspendMu.Unlock()
 
 	vx.enterAltScreen()
 	vx.enableModes()
